@@ -315,6 +315,89 @@ fn main() {
         emit(&mut w, id, "ctx", n, res, &cref, Mode::All, None);
         id += 1;
     }
+    // (d) every DAG of the Flatten.tla bound through the real Context and SsaTape::new, with the tape the model predicts
+    if let Some(path) = args.get(4) {
+        let text = std::fs::read_to_string(path).unwrap();
+        let mut lines: Vec<&str> = text.lines().filter(|l| l.contains("\"GEN\"")).collect();
+        lines.sort();
+        lines.dedup();
+        for l in lines {
+            let start = l.find(", \"").unwrap() + 3;
+            let end = l.rfind("\">>").unwrap();
+            let c: serde_json::Value = serde_json::from_str(&l[start..end].replace("\\\"", "\"")).unwrap();
+            let dag = c["dag"].as_array().unwrap();
+            let mut ctx = Context::new();
+            let mut nodes: Vec<Node> = vec![];
+            for (i, nd) in dag.iter().enumerate() {
+                let kind = nd[0].as_str().unwrap();
+                let a = nd[1].as_u64().unwrap() as usize;
+                let b = nd[2].as_u64().unwrap() as usize;
+                let n = match kind {
+                    "x" => ctx.x(),
+                    "y" => ctx.y(),
+                    "k" => ctx.constant(2.5),
+                    "un" => ctx_un(&mut ctx, [8, 9, 10, 13, 14, 15][i % 6], nodes[a - 1]),          // sin cos tan atan exp ln
+                    "bin" => ctx_bin(&mut ctx, [1, 3, 4, 7, 8, 11][i % 6], nodes[a - 1], nodes[b - 1]), // sub div atan2 compare mod mix
+                    _ => ctx_bin(&mut ctx, [5, 6][i % 2], nodes[a - 1], nodes[b - 1]),            // min max
+                };
+                nodes.push(n);
+            }
+            let mut uniq = nodes.clone();
+            uniq.sort();
+            uniq.dedup();
+            let same_dag = uniq.len() == nodes.len();
+            let roots: Vec<Node> = c["roots"].as_array().unwrap().iter().map(|r| nodes[r.as_u64().unwrap() as usize - 1]).collect();
+            let pts = pgen::input_points(&mut rng, Mode::All, 3, 2);
+            let res = ctx_compile_and_eval::<255>(&ctx, &roots, &pts);
+            let cref = |_rec: &TapeRec, p: &[f32]| -> Vec<f32> {
+                let vars: HashMap<Var, f32> = [(Var::X, p[0]), (Var::Y, p[1]), (Var::Z, p[2])].into_iter().collect();
+                roots.iter().map(|r| ctx.eval(*r, &vars).unwrap()).collect()
+            };
+            // the model's tape and the real one, in one normal form: [kind, slot, lk, ls, rk, rs]
+            let opnd = |o: &serde_json::Value| -> (String, i64) {
+                if o[0] == "reg" { ("reg".into(), o[1].as_i64().unwrap()) } else { ("imm".into(), -1) }
+            };
+            let norm = |kind: &str, slot: i64, mut l: (String, i64), mut r: (String, i64)| {
+                if kind == "min" && l.0 == "imm" {
+                    std::mem::swap(&mut l, &mut r); // min / max with an immediate are emitted reg-imm whatever the side
+                }
+                json!([kind, slot, l.0, l.1, r.0, r.1])
+            };
+            let none = || ("none".to_string(), -1i64);
+            let model: Vec<serde_json::Value> = c["tape"].as_array().unwrap().iter().map(|op| {
+                let k = op[0].as_str().unwrap();
+                let slot = op[1].as_i64().unwrap();
+                match k {
+                    "output" | "input" => norm(k, slot, ("idx".into(), op[2].as_i64().unwrap()), none()),
+                    "copyimm" => norm(k, slot, none(), none()),
+                    "un" => norm(k, slot, opnd(&op[2]), none()),
+                    _ => norm(k, slot, opnd(&op[2]), opnd(&op[3])),
+                }
+            }).collect();
+            let real: Vec<serde_json::Value> = match &res {
+                Ok((rec, _)) => rec.ssa.iter().map(|g| {
+                    let kind = if matches!(g.name.as_str(), "Min" | "Max") { "min" } else { "bin" };
+                    match g.class {
+                        0 => norm("output", g.a, ("idx".into(), g.b), none()),
+                        1 => norm("input", g.out, ("idx".into(), g.a), none()),
+                        2 => norm("copyimm", g.out, none(), none()),
+                        3 => norm("un", g.out, ("reg".into(), g.a), none()),
+                        4 => norm(kind, g.out, ("reg".into(), g.a), ("imm".into(), -1)),
+                        5 => norm(kind, g.out, ("imm".into(), -1), ("reg".into(), g.a)),
+                        _ => norm(kind, g.out, ("reg".into(), g.a), ("reg".into(), g.b)),
+                    }
+                }).collect(),
+                Err(_) => vec![],
+            };
+            // emit through the common path, then add the flatten fields to the same line
+            let mut buf: Vec<u8> = vec![];
+            emit(&mut buf, id, "ctx", 255, res, &cref, Mode::All, None);
+            let mut j: serde_json::Value = serde_json::from_slice(&buf).unwrap();
+            j["flat"] = json!({"same_dag": same_dag, "model": model, "real": real, "choices": c["choices"], "slots": c["slots"]});
+            writeln!(w, "{j}").unwrap();
+            id += 1;
+        }
+    }
     w.flush().unwrap();
     eprintln!("c01: {id} cases");
     let _ = bits(0.0);
